@@ -22,6 +22,7 @@ type FileSpec struct {
 	// import spellings
 	CtxAlias string `json:"ctxalias,omitempty"` // alias for "context" ("" = plain)
 	CffAlias string `json:"cffalias,omitempty"` // alias for go.uber.org/cff
+	Layout   int    `json:"layout,omitempty"`   // bit 0: CRLF line endings, bit 1: no newline at the end of the file, bit 2: //go:generate and a doc comment between the constraint and the package clause
 	OddImp   int    `json:"oddimp,omitempty"`   // 1: imports vcase/odd/v2 (package odd), 2: math/rand/v2 (package rand), both without an explicit name
 	TimeImp  string `json:"timeimp,omitempty"`  // "", "plain" (imports time), "alias" (tm "time"), "collide" (another package imported as time)
 }
@@ -786,6 +787,12 @@ func RenderFileAs(f *FileSpec, pkgAuto bool, regSuffix string) (src, side string
 	var x w
 	x.sb.WriteString(f.Header)
 	x.f("")
+	if f.Layout&4 != 0 {
+		// tool directives and a doc comment between the constraint and the package clause
+		x.f("//go:generate echo regenerate %s", f.Name)
+		x.f("")
+		x.f("// Package p is documented here, right above the clause.")
+	}
 	x.f("package p")
 	x.f("")
 	x.f("import (")
@@ -885,6 +892,13 @@ func RenderFileAs(f *FileSpec, pkgAuto bool, regSuffix string) (src, side string
 				}
 			}
 		}
+	}
+	// byte-level layout variants (line numbers unchanged)
+	if f.Layout&2 != 0 {
+		src = strings.TrimRight(src, "\n") // no newline at the end of the file
+	}
+	if f.Layout&1 != 0 {
+		src = strings.ReplaceAll(src, "\n", "\r\n") // CRLF line endings
 	}
 	return src, side, extFns
 }
